@@ -11,19 +11,19 @@ use crate::tt::{lit_true, TT};
 use ddnnife::parser::intermediate_representation::{ClauseApplication, IncrementalStrategy};
 use ddnnife::Ddnnf;
 
-fn extend_tt(tt: &TT, n2: u32) -> TT {
+pub fn extend_tt(tt: &TT, n2: u32) -> TT {
     // same function over more features (the new ones free)
     let n = tt.n;
     TT::from_fn(n2, |k| tt.bits[k >> (n2 - n)])
 }
-fn and_clause(tt: &TT, c: &[i32]) -> TT { TT::from_fn(tt.n, |k| tt.bits[k] && c.iter().any(|&l| lit_true(tt.n, k, l))) }
+pub fn and_clause(tt: &TT, c: &[i32]) -> TT { TT::from_fn(tt.n, |k| tt.bits[k] && c.iter().any(|&l| lit_true(tt.n, k, l))) }
 
 fn strategy_name(s: IncrementalStrategy) -> &'static str {
     match s { IncrementalStrategy::Tautology => "Tautology", IncrementalStrategy::UnitClause => "UnitClause", IncrementalStrategy::SubDAGReplacement => "SubDAGReplacement",
               IncrementalStrategy::Recompile => "Recompile", IncrementalStrategy::Undo => "Undo", IncrementalStrategy::Error => "Error" }
 }
 
-fn apply(d: &mut Ddnnf, ops: Vec<(Vec<i32>, ClauseApplication)>) -> Result<IncrementalStrategy, String> {
+pub fn apply(d: &mut Ddnnf, ops: Vec<(Vec<i32>, ClauseApplication)>) -> Result<IncrementalStrategy, String> {
     guarded(|| d.prepare_and_apply_incremental_edit(ops))
 }
 
